@@ -33,7 +33,7 @@ COMPONENTS = {"real": ["pyjelly serializers and parsers of both integrations, mo
 ASSUMPTIONS = ["pre-emption only at Python line boundaries inside pyjelly (not inside C calls of protobuf / io)",
                "hash-seed clause applied to explicit sequences only (rdflib containers iterate in hash order by design)",
                "rdflib Graph/Dataset containers iterate in hash order by design, so only explicit sequences are used"]
-PROBES = ["guessed_options_workloads", "namespace_workloads", "nested_steps", "coop_runs", "thread_runs", "subproc_runs", "shared_options", "neighbour_abandoned", "neighbour_failed",
+PROBES = ["shipped_statement_runs", "copied_statement_runs", "guessed_options_workloads", "namespace_workloads", "nested_steps", "coop_runs", "thread_runs", "subproc_runs", "shared_options", "neighbour_abandoned", "neighbour_failed",
           "neighbour_unused", "thread_switches", "parse_workloads", "ser_workloads", "rdflib_workloads"]
 SHRINK_LISTS = ["workloads"]
 
@@ -101,8 +101,10 @@ def same_arity(a, b):
 
 
 # ------------------------------------------------------------------ running one workload
-def ser_steps(w, out: io.BytesIO, options=None, fail_at=None, sched=None):
-    """Generator: each next() writes one frame of the serialization of workload w."""
+def ser_steps(w, out: io.BytesIO, options=None, fail_at=None, sched=None, prebuilt=None):
+    """Generator: each next() writes one frame of the serialization of workload w.
+    prebuilt: the statement objects themselves (copied, or shipped from another process) instead of
+    objects built here from the plan."""
     cfg = w["cfg"]
     stmts, _ = nodes.split_ops(w["ops"])
     m = nodes.integ_mod(cfg)
@@ -110,6 +112,9 @@ def ser_steps(w, out: io.BytesIO, options=None, fail_at=None, sched=None):
     conv = nodes.conv_stmt(cfg)
 
     def source():
+        if prebuilt is not None:
+            yield from prebuilt
+            return
         for i, st in enumerate(stmts):
             if fail_at is not None and i == fail_at:
                 yield ("not", "a", "statement")[: 2]
@@ -148,12 +153,22 @@ def parse_steps(w, data: bytes, result: list):
             yield
 
 
-def solo(w):
+def shippable(w) -> bool:
+    return w["cfg"]["entry"] != "frames_sink"
+
+
+def statement_objects(w):
+    stmts, _ = nodes.split_ops(w["ops"])
+    conv = nodes.conv_stmt(w["cfg"])
+    return [conv(st) for st in stmts]
+
+
+def solo(w, prebuilt=None):
     """Run workload w alone. Returns (bytes written, parse result | None)."""
     if w["cfg"].get("ns"):
         COUNT["ns"] = COUNT.get("ns", 0) + 1
     out = io.BytesIO()
-    for _ in ser_steps(w, out):
+    for _ in ser_steps(w, out, prebuilt=prebuilt):
         pass
     data = out.getvalue()
     if w["kind"] == "ser":
@@ -306,7 +321,7 @@ def threads_side(plan, sim):
 
 # ------------------------------------------------------------------ subprocesses: hash seeds and histories
 CHILD = r"""
-import sys, json, hashlib
+import sys, json, hashlib, os, pickle
 sys.path.insert(0, sys.argv[1])
 sys.dont_write_bytecode = True
 from simkit import repo
@@ -319,7 +334,24 @@ if sys.argv[3] == "rev":
 out = {}
 from simkit import refdec
 for i in order:
-    data, _ = c12.solo(plan["workloads"][i])
+    w = plan["workloads"][i]
+    shipped = os.path.join(os.path.dirname(sys.argv[2]), "shipped-%d.pkl" % i)
+    prebuilt = None
+    if sys.argv[3] == "rev" and os.path.exists(shipped):
+        # the statement objects were built in the parent process and arrive pickled (multiprocessing style)
+        try:
+            with open(shipped, "rb") as fh:
+                prebuilt = pickle.load(fh)
+        except Exception as e:
+            out[i] = "statements-do-not-survive-pickling:" + type(e).__name__ + ":-"
+            continue
+    try:
+        data, _ = c12.solo(w, prebuilt=prebuilt)
+    except Exception as e:
+        if prebuilt is None:
+            raise
+        out[i] = "raised-on-shipped-statements:" + type(e).__name__ + ":-"
+        continue
     r = refdec.decode_stream(data, True, strict=False)
     bag = hashlib.sha256(repr(sorted(set(r.items), key=repr)).encode("utf-8", "backslashreplace")).hexdigest() if r.ok else "invalid"
     out[i] = hashlib.sha256(data).hexdigest() + ":" + bag
@@ -334,8 +366,18 @@ def subproc_side(plan, sim):
     wl = plan["workloads"]
     from simkit import refdec
     mine = {}
+    copies = {}
+    import copy
+    import pickle
     for i, w in enumerate(wl):
         data = solo(w)[0]
+        if shippable(w):
+            # the same statement sequence as copies of the objects (copy.deepcopy): same bytes expected
+            sim.count("copied_statement_runs")
+            try:
+                copies[i] = hashlib.sha256(solo(w, prebuilt=copy.deepcopy(statement_objects(w)))[0]).hexdigest()
+            except Exception as e:  # noqa: BLE001
+                copies[i] = f"raised {type(e).__name__}: {e}"
         r = refdec.decode_stream(data, True, strict=False)
         bag = hashlib.sha256(repr(sorted(set(r.items), key=repr)).encode("utf-8", "backslashreplace")).hexdigest() \
             if r.ok else "invalid"
@@ -344,6 +386,11 @@ def subproc_side(plan, sim):
     pf = os.path.join(tmp, "plan.json")
     with open(pf, "w") as fh:
         json.dump({"workloads": wl}, fh)
+    for i, w in enumerate(wl):
+        if shippable(w):
+            sim.count("shipped_statement_runs")
+            with open(os.path.join(tmp, f"shipped-{i}.pkl"), "wb") as fh:
+                pickle.dump(statement_objects(w), fh)
     outs = {}
     try:
         procs = []
@@ -364,6 +411,11 @@ def subproc_side(plan, sim):
     for i, w in enumerate(wl):
         digests = {k: o[str(i)] for k, o in outs.items()}
         digests[("inproc", "-")] = mine[str(i)]
+        if i in copies and copies[i] != mine[str(i)].split(":")[0]:
+            v.append({"clause": "C12.bytes_depend_on_object_identity",
+                      "sig": {"integration": w["cfg"]["integration"], "physical": w["cfg"]["physical"]},
+                      "msg": f"workload {i}: deep copies of the statement objects gave {copies[i][:120]} instead of the "
+                             f"bytes of the originals"})
         if len(set(digests.values())) != 1:
             cfg = w["cfg"]
             same_bag = len({d.split(":")[1] for d in digests.values()}) == 1
